@@ -80,11 +80,16 @@ def vec(m, r):
     return np.hstack([np.deg2rad(float(r['lat'])), np.deg2rad(float(r['lon'])), float(r['alt']), np.asarray(r[VEL].values, float), C.ravel()])
 
 
-def step(m, pva, alt, w, f, h):
+def step(m, pva, alt, w, f, h, singular=False):
+    """The state vector after one real step.  At pitch +-90 the Euler angles of the returned row do not determine the attitude to
+    better than 1e-8 (roll and heading are not separately defined): the attitude matrix is then read from the integrator's buffer."""
     pd = m["pd"]
     it = m["strapdown"].Integrator(pva, alt)
     inc = pd.DataFrame([np.hstack([[h], np.asarray(w, float) * h, exact_dv(w, f, h)])], index=pd.Index([float(pva.name) + h], name="time"), columns=INC)
-    return it.integrate(inc).iloc[-1]
+    x = vec(m, it.integrate(inc).iloc[-1])
+    if singular:
+        x[6:] = np.asarray(it.mat_nb[1], float).ravel()
+    return x
 
 
 def measured(m, pva, alt, w, f, h0=2.0 ** -9, levels=4):
@@ -93,7 +98,8 @@ def measured(m, pva, alt, w, f, h0=2.0 ** -9, levels=4):
     if not alt:
         p0['VD'] = 0.0
     x0 = vec(m, p0)
-    row = [(vec(m, step(m, pva, alt, w, f, h0 / 2 ** i)) - x0) / (h0 / 2 ** i) for i in range(levels)]
+    singular = abs(abs(float(pva['pitch'])) - 90.0) < 1e-9
+    row = [(step(m, pva, alt, w, f, h0 / 2 ** i, singular) - x0) / (h0 / 2 ** i) for i in range(levels)]
     for k in range(1, levels):
         row = [(2 ** k * row[i + 1] - row[i]) / (2 ** k - 1) for i in range(len(row) - 1)]
     return row[0]
@@ -128,7 +134,7 @@ def _pva(m, cfg):
     k = cfg["k"]
     vals = dict(lat=(50.0, -33.0, 0.0, 71.5, 84.9, -85.0, 12.25)[k % 7], lon=(30.0, -120.0, 179.5, 359.0)[k % 4], alt=(100.0, -50.0, 9000.0)[k % 3],
                 VN=float(cfg["vel"][0]), VE=float(cfg["vel"][1]), VD=float(cfg["vel"][2]),
-                roll=ANGLE[cfg["rq"]], pitch=0.0, heading=ANGLE[cfg["hq"]])
+                roll=ANGLE[cfg["rq"]], pitch=ANGLE[cfg.get("pq", 0)], heading=ANGLE[cfg["hq"]])
     labels = NINE if k % 4 != 1 else RPH + LLA + VEL[::-1]
     return pd.Series([vals[c] for c in labels], index=labels, name=float((0, 3, 1e5)[k % 3]))
 
@@ -340,7 +346,7 @@ def check(rep, pid, tier, seed):
     dom = domain_module(tier, seed)
 
     def one(a):
-        return tlc.run_tlc("StrapdownStep", dict(spec="Spec", invariants=INV, constants=dict(RollQ={0, 1, 2, 3}, HeadQ={a}, CoriolisOnce=False, TransportFlip=False)),
+        return tlc.run_tlc("StrapdownStep", dict(spec="Spec", invariants=INV, constants=dict(RollQ={0, 1, 2, 3}, PitchQ={0, 1, 3}, HeadQ={a}, CoriolisOnce=False, TransportFlip=False)),
                            workers=4, timeout=3000, heap="2g", coverage=True, extra_files={"MeasDomain.tla": dom})
     with ThreadPoolExecutor(4) as ex:
         results = list(ex.map(one, (0, 1, 2, 3)))
@@ -354,18 +360,18 @@ def check(rep, pid, tier, seed):
         for line in r.prints:
             v = tlc.parse_value(line)
             if isinstance(v, tuple) and v and v[0] == "STEP":
-                _, alt, rq, hq, vel, f, w, table = v
-                cfgs.append(dict(alt=bool(alt), rq=rq, hq=hq, vel=list(vel), f=list(f), w=list(w), table=[list(r_) for r_ in table]))
+                _, alt, rq, pq, hq, vel, f, w, table = v
+                cfgs.append(dict(alt=bool(alt), rq=rq, pq=pq, hq=hq, vel=list(vel), f=list(f), w=list(w), table=[list(r_) for r_ in table]))
     rep.exhaustive = ok
     for variant, consts in (("CoriolisOnce = TRUE", dict(CoriolisOnce=True, TransportFlip=False)), ("TransportFlip = TRUE", dict(CoriolisOnce=False, TransportFlip=True))):
-        c = dict(RollQ={1}, HeadQ={0, 3}); c.update(consts)
+        c = dict(RollQ={1}, PitchQ={0}, HeadQ={0, 3}); c.update(consts)
         r = tlc.run_tlc("StrapdownStep", dict(spec="Spec", invariants=["Consistent"], constants=c), workers=2, timeout=900, heap="2g", extra_files={"MeasDomain.tla": dom})
         rep.add_tlc("StrapdownStep[%s] (sensitivity)" % variant, r, note="must violate Consistent")
         if r.violated == "Consistent":
             rep.extra.setdefault("spec_sensitivity", []).append(dict(variant=variant, violated=r.violated, counterexample=tlc.to_jsonable(r.trace[-1][1] if r.trace else {})))
         else:
             rep.vacuity.append("the variant %s of the model was not rejected" % variant)
-    cfgs.sort(key=lambda c: (c["alt"], c["rq"], c["hq"], c["vel"], c["f"], c["w"]))
+    cfgs.sort(key=lambda c: (c["alt"], c["rq"], c["pq"], c["hq"], c["vel"], c["f"], c["w"]))
     for k, c in enumerate(cfgs):
         c["k"] = k + seed
     if not cfgs:
@@ -390,8 +396,8 @@ def check(rep, pid, tier, seed):
             for cfg, probs in bad:
                 n_bad += 1
                 for p in probs:
-                    rep.violation("C01 Integrator(with_altitude=%s) at roll %g, heading %g, velocity %s, specific force %s, body rate %s: %s"
-                                  % (cfg["alt"], ANGLE[cfg["rq"]], ANGLE[cfg["hq"]], cfg["vel"], cfg["f"], cfg["w"], p), dict(mode="config", cfg=cfg), key=p[:60])
+                    rep.violation("C01 Integrator(with_altitude=%s) at roll %g, pitch %g, heading %g, velocity %s, specific force %s, body rate %s: %s"
+                                  % (cfg["alt"], ANGLE[cfg["rq"]], ANGLE[cfg.get("pq", 0)], ANGLE[cfg["hq"]], cfg["vel"], cfg["f"], cfg["w"], p), dict(mode="config", cfg=cfg), key=p[:60])
         elif kind == "general":
             for kk, p, wv in res:
                 n_gen += 1
@@ -415,7 +421,7 @@ def check(rep, pid, tier, seed):
     rep.traces += len(cfgs) + n_gen + n_conv
     rep.evaluations += len(cfgs) + n_gen + n_conv
     for c in cfgs:
-        rep.nontrivial.add((c["alt"], c["rq"], c["hq"], tuple(c["vel"]), tuple(c["f"]), tuple(c["w"])))
+        rep.nontrivial.add((c["alt"], c["rq"], c["pq"], c["hq"], tuple(c["vel"]), tuple(c["f"]), tuple(c["w"])))
     rep.rule = ("one configuration = (altitude mode, roll, heading, velocity, specific force, body rate); the derivative of one step of the real Integrator with respect to the "
                 "interval is compared, in all 15 components, with the model's table instantiated with the library's Earth quantities")
     rep.sample("3D roll 90 heading -90 v = (3,-2,1): d VN/dt = -1 - 4 (-W sin lat) + 3 / (rn+alt) - 4 tan(lat) / (re+alt)  [Coriolis with 2 W, transport rate once]")
